@@ -207,6 +207,8 @@ func TestVerifDriver(t *testing.T) {
 		switch head.Kind {
 		case "cache":
 			return verifCache(raw)
+		case "safemap":
+			return verifSafeMap(raw)
 		default:
 			return verifWheel(raw)
 		}
